@@ -10,7 +10,11 @@
    3. forgetting the records: `method_run` computes the outputs of Spec/PipelineAll.v, one lemma `block_refines_<method>`
       per method (Highest / Lowest: under the order laws `PosOrder`, through `pop_all_sort_by` of ActivationProofs);
    4. blocks, defuzzification, `process_refines_pipeline_all`;
-   5. corollaries for C01;  6. C13 without `general_only`. *)
+   5. frames of the specification (a block only appends activated terms; process keeps the rule blocks up to degrees/flags);
+   6. C13 without `general_only`;
+   7. what a block triggers (`block_triggered`), disabled / unselected rules contribute nothing, the Highest / Lowest order
+      is THE sorted arrangement;
+   8. what process leaves in the rules: `triggered_flag_iff_all`. *)
 From Coq Require Import ZArith Bool List String Lia Sorting.Sorted Sorting.Permutation.
 From VF Require Import Num GenNorm GenHedge GenTerm Core Discrete NpSum Defuzz Antecedent Consequent Activation
   Weighted Cascade Engine Ops Selection Pipeline PipelineAll ActivationProofs EngineProofs.
@@ -1903,11 +1907,12 @@ Section Flags2.
       unfold facc in Hrun. rewrite facc_heap in Hrun. cbn [app] in Hrun. unfold entries in Hrun.
       rewrite (pops_are_selection PO key before Hbk Hko n (cands_of ev) NDc) in Hrun.
       eexists. split; [reflexivity|]. intros ri r Hr.
-      destruct (two_phase_flags ident _ (b_rules b) outs ev rules' outs' Hev) with (3 := Hrun) (4 := Hr) as (r' & Ha & Hb).
-      - intros c Hin. apply in_firstn_of in Hin.
-        apply (Permutation_in _ (Permutation_sym (sort_cands_perm before _))) in Hin. apply filter_In in Hin. exact (proj1 Hin).
-      - apply sorted_selection_nodup, NDc.
-      - exists r'. split; [exact Ha|]. rewrite map_with_same_degree in Hb. exact Hb. }
+      assert (Hincl : incl (firstn (Z.to_nat n) (sort_cands before (filter cd_positive (cands_of ev)))) (cands_of ev)).
+      { intros c Hin. apply in_firstn_of in Hin.
+        apply (Permutation_in _ (Permutation_sym (sort_cands_perm before _))) in Hin. apply filter_In in Hin. exact (proj1 Hin). }
+      destruct (two_phase_flags ident _ (b_rules b) outs ev rules' outs' Hev Hincl (sorted_selection_nodup before _ _ NDc) Hrun ri r Hr)
+        as (r' & Ha & Hb).
+      exists r'. split; [exact Ha|]. rewrite map_with_same_degree in Hb. exact Hb. }
     destruct m as [|n t|n t|n|n| |c t]; cbn [method_run] in H.
     - exact (Hwalk unit f_general general_decide _ tt (fun _ _ _ => eq_refl) NDx AG Hnum H).
     - exact (Hwalk Z (f_first n t) (first_decide n t) _ 0%Z (f_first_decide n t) NDx AG Hnum H).
@@ -1924,11 +1929,77 @@ Section Flags2.
       rewrite filter_positive_key, key_fst, key_snd in H.
       change (fold_left add (map (@cd_degree T) (filter cd_positive (cands_of ev))) zero) with (positive_sum (cands_of ev)) in H.
       eexists. split; [reflexivity|]. intros ri r Hr.
-      destruct (two_phase_flags (fun d => div d (positive_sum (cands_of ev))) _ (b_rules b) outs ev rules' outs' Hev) with (3 := H) (4 := Hr)
-        as (r' & Ha & Hb).
-      + intros c0 Hin. apply filter_In in Hin. exact (proj1 Hin).
-      + rewrite <- key_fst, <- filter_positive_key. apply nodup_filter_fst. rewrite key_fst. exact NDc.
-      + exists r'. split; [exact Ha | exact Hb].
+      assert (Hincl : incl (filter cd_positive (cands_of ev)) (cands_of ev))
+        by (intros c0 Hin; apply filter_In in Hin; exact (proj1 Hin)).
+      assert (NDp : NoDup (map (@cd_pos T) (filter cd_positive (cands_of ev))))
+        by (rewrite <- key_fst, <- filter_positive_key; apply nodup_filter_fst; rewrite key_fst; exact NDc).
+      exact (two_phase_flags (fun d => div d (positive_sum (cands_of ev))) _ (b_rules b) outs ev rules' outs' Hev Hincl NDp H ri r Hr).
     - exact (Hwalk unit (f_threshold c t) (threshold_decide c t) _ tt (f_threshold_decide c t) NDx AG Hnum H).
   Qed.
 End Flags2.
+
+Section FlagsEngine.
+  Context {T : Type} {N : Num T}.
+  Variable function_eval : engine T -> fnode T -> list (string * T) -> T -> result T.
+  Hypothesis fe_ext : forall e1 e2 : engine T,
+    e_inputs e1 = e_inputs e2 -> e_outputs e1 = e_outputs e2 -> function_eval e1 = function_eval e2.
+  Notation outputs := (list (output_var T)).
+
+  Lemma blocks_run_nth (E : engine T) : forall bs bi (outs : outputs) bs' outs' b,
+    blocks_run function_eval E outs bs = Ok (bs', outs') -> nth_error bs bi = Some b ->
+    exists o0,
+      rmap snd (blocks_run function_eval E outs (firstn bi bs)) = Ok o0 /\
+      if b_enabled b then
+        exists rs' o1, block_run function_eval E b o0 = Ok (rs', o1) /\ nth_error bs' bi = Some (set_rules b rs')
+      else nth_error bs' bi = Some b.
+  Proof.
+    induction bs as [|b0 bs IH]; intros [|bi] outs bs' outs' b H Hn; cbn in Hn; try discriminate.
+    - injection Hn as ->. cbn [blocks_run] in H. exists outs. split; [reflexivity|].
+      destruct (b_enabled b).
+      + destruct (block_run function_eval E b outs) as [[rs' o1]|]; cbn [bind fst snd] in H; [|discriminate].
+        destruct (blocks_run function_eval E o1 bs) as [[bs'' o2]|]; cbn [bind fst snd] in H; [|discriminate].
+        injection H as <- <-. exists rs', o1. split; reflexivity.
+      + destruct (blocks_run function_eval E outs bs) as [[bs'' o2]|]; cbn [bind fst snd] in H; [|discriminate].
+        injection H as <- <-. reflexivity.
+    - cbn [blocks_run firstn] in H |- *.
+      destruct (b_enabled b0).
+      + destruct (block_run function_eval E b0 outs) as [[rs' o1]|]; cbn [bind fst snd] in H |- *; [|discriminate].
+        destruct (blocks_run function_eval E o1 bs) as [[bs'' o2]|] eqn:H2; cbn [bind fst snd] in H; [|discriminate].
+        injection H as <- <-. destruct (IH bi o1 bs'' o2 b H2 Hn) as (o0 & Ha & Hb).
+        exists o0. split; [|exact Hb].
+        destruct (blocks_run function_eval E o1 (firstn bi bs)) as [[x y]|]; cbn in *; congruence.
+      + destruct (blocks_run function_eval E outs bs) as [[bs'' o2]|] eqn:H2; cbn [bind fst snd] in H; [|discriminate].
+        injection H as <- <-. destruct (IH bi outs bs'' o2 b H2 Hn) as (o0 & Ha & Hb).
+        exists o0. split; [|exact Hb].
+        destruct (blocks_run function_eval E outs (firstn bi bs)) as [[x y]|]; cbn in *; congruence.
+  Qed.
+
+  (* what process leaves in the rule at position ri of the enabled block bi: `o0` = the contributions of the blocks before
+     it, `sel` = the candidates the block triggers; the flag is set iff the rule was selected, is enabled and was passed
+     a degree > 0; a selected rule holds the degree passed to its consequent (Proportional: the normalised one) *)
+  Theorem triggered_flag_iff_all (PO : PosOrder N) (e e' : engine T) bi ri b r :
+    process function_eval e = Ok e' ->
+    nth_error (e_blocks e) bi = Some b -> b_enabled b = true -> nth_error (b_rules b) ri = Some r ->
+    exists o0 sel b' r',
+      blocks_all_contribution function_eval e (map clear_fuzzy (e_outputs e)) (firstn bi (e_blocks e)) = Ok o0 /\
+      block_triggered function_eval e b o0 = Ok sel /\
+      get_rule e' bi ri = Some (b', r') /\
+      rule_deactivated r' = rule_deactivated r /\
+      (r_triggered r' = true <->
+       exists c, In c sel /\ cd_pos c = ri /\ cd_enabled c = true /\ gtb (cd_degree c) zero = true) /\
+      (forall c, In c sel -> cd_pos c = ri -> r_degree r' = cd_degree c).
+  Proof.
+    intros Hp Hb Hen Hr. rewrite (process_eq_all_spec function_eval fe_ext e) in Hp. unfold process_all_spec in Hp.
+    destruct (blocks_run function_eval e _ (e_blocks e)) as [[bs' o']|] eqn:H1; cbn [bind fst snd] in Hp; [|discriminate].
+    destruct (pipeline_values function_eval e [] o'); cbn [bind] in Hp; [|discriminate]. injection Hp as <-.
+    destruct (blocks_run_nth e _ bi _ _ _ b H1 Hb) as (o0 & Ha & Hbb). rewrite Hen in Hbb.
+    destruct Hbb as (rs' & o1 & H2 & Hn2).
+    rewrite (blocks_run_contribution function_eval e _ (or_introl PO)) in Ha.
+    unfold block_run in H2. destruct (b_activation b) as [m|] eqn:Hm; [|discriminate].
+    destruct (method_run_flags function_eval e b PO m o0 rs' o1 Hm H2) as (sel & Hsel & Hall).
+    destruct (Hall ri r Hr) as (r' & Hn3 & Hs & Hiff & Hd).
+    exists o0, sel, (set_rules b rs'), r'. split; [exact Ha|]. split; [exact Hsel|]. split.
+    { unfold get_rule. cbn [e_blocks]. rewrite Hn2. cbn [b_rules set_rules]. rewrite Hn3. reflexivity. }
+    split; [exact Hs|]. split; [exact Hiff | exact Hd].
+  Qed.
+End FlagsEngine.
